@@ -174,9 +174,11 @@ Definition p_dump_database (fs : fsys) (db : Z) : option DatabaseDump :=
   end.
 Definition p_dump_database_by_name (fs : fsys) (n : bytes) : option DatabaseDump :=
   match p_database fs n with Some db => p_dump_database fs (db_oid db) | None => None end.
-Definition p_dump_all (fs : fsys) : list DatabaseDump :=
-  flat_map (fun db => if has_prefix (db_name db) s_template then [] else
-                      match p_dump_database fs (db_oid db) with Some d => [d] | None => [] end) (p_dbs fs).
+Definition p_dump_all_db (fs : fsys) (db : DatabaseInfo) : list DatabaseDump :=
+  if has_prefix (db_name db) s_template then [] else
+  if (Z.of_nat (length (p_tables fs (db_oid db))) =? 0) && negb (hasClassFile fs (db_oid db)) then [] else
+  match p_dump_database fs (db_oid db) with Some d => [d] | None => [] end.
+Definition p_dump_all (fs : fsys) : list DatabaseDump := flat_map (p_dump_all_db fs) (p_dbs fs).
 Definition p_summary (fs : fsys) : SummaryResult :=
   {| sr_version := Version E fs; sr_creds := Credentials E fs; sr_dbs := p_dbs fs;
      sr_tables := map (fun db => (db_oid db, p_tables fs (db_oid db)))
